@@ -9,10 +9,15 @@ from spyne.protocol.http import HttpRpc
 from spyne.protocol.dictdoc.simple import _s2cmi, SimpleDictDocument
 
 
-class Inner(ComplexModel):
+class InnerBase(ComplexModel):
     __namespace__ = 'tns'
     v = Integer
+
+
+class Inner(InnerBase):          # v is inherited; tags is a primitive array below the root
+    __namespace__ = 'tns'
     w = Unicode
+    tags = Array(Integer)
 
 
 class Outer(ComplexModel):
@@ -362,7 +367,8 @@ def flat_roundtrip(sx, p):
     if share == 'b[0] is b[1]':
         bs[1] = bs[0]
         bv[1], bw[1] = bv[0], bw[0]
-    o = Flat(a=a, s=s, inner=Inner(v=iv), b=bs if nb else None, nums=nums if nn else None)
+    tags = [sx.int('t%d' % i, lo, hi) for i in range(nn)]
+    o = Flat(a=a, s=s, inner=Inner(v=iv, tags=tags if nn else None), b=bs if nb else None, nums=nums if nn else None)
     flat = prot.object_to_simple_dict(Flat, o, subinst_eater=_eater)
     doc = {}
     for k, v in flat.items():
@@ -382,8 +388,12 @@ def flat_roundtrip(sx, p):
         if back.nums is None or len(back.nums) != nn:
             return False
         ok += [sx.eq(x, y) for x, y in zip(back.nums, nums)]
+        if back.inner.tags is None or len(back.inner.tags) != nn:       # a primitive array inside a nested object
+            return False
+        ok += [sx.eq(x, y) for x, y in zip(back.inner.tags, tags)]
     else:
         ok.append(back.nums is None or back.nums == [])
+        ok.append(back.inner.tags is None or back.inner.tags == [])
     return sx.And(*ok)
 
 
